@@ -3,7 +3,9 @@
 // if the static type of x is a subtype of T, and prints the runtime class of the value: a printed class that is
 // not a member of T (or a Go panic / Elk error raised by an instruction chosen for T) shows that a value escaped
 // its static type. The space is the full product
-//   declared type × scope × narrowing form × invalidation × probe position × probe kind
+//
+//	declared type × scope × narrowing form × invalidation × probe position × probe kind
+//
 // of which every program the checker accepts is run.
 package main
 
@@ -73,13 +75,13 @@ var scopes = []string{"top", "method-local", "method-param"}
 
 // nform is a narrowing form. wrap places the body where the variable `v` has the narrowed type.
 type nform struct {
-	name   string
-	family string // signature family
-	neg    bool   // the body sees the complement type
-	newvar string // the body works on this expression instead of x ("" = x); such forms admit no outer closures
-	exprV  bool   // newvar is an expression, not an assignable variable
-	nilOnly bool  // only meaningful for nilable declared types
-	wrap   func(d decl, t *tinfo, body []string) []string
+	name    string
+	family  string // signature family
+	neg     bool   // the body sees the complement type
+	newvar  string // the body works on this expression instead of x ("" = x); such forms admit no outer closures
+	exprV   bool   // newvar is an expression, not an assignable variable
+	nilOnly bool   // only meaningful for nilable declared types
+	wrap    func(d decl, t *tinfo, body []string) []string
 }
 
 func ind(ls []string) []string {
@@ -190,20 +192,21 @@ func nforms() []nform {
 // invalidation kinds
 var invals = []string{
 	"none",
-	"reassign",              // x = O right before the probe
-	"closure-call",          // closure defined before the narrowing, called inside it
-	"closure-copy-call",     // the same closure copied to another variable, then called
-	"closure-via-method",    // the same closure passed to a method that calls it
-	"closure-inline-call",   // (-> x = O).() inside the narrowed region
-	"closure-inner-call",    // f := -> x = O ; f.() both inside the narrowed region
-	"cond-reassign",         // if c then x = O end
-	"loop-reassign",         // a loop whose body assigns, probe after the loop
-	"loop-back-edge",        // the probe at the start of a loop body, the assignment at its end
-	"catch-reassign",        // assignment in a do body that throws, probe after the catch
-	"finally-reassign",      // assignment in finally
+	"reassign",            // x = O right before the probe
+	"closure-call",        // closure defined before the narrowing, called inside it
+	"closure-copy-call",   // the same closure copied to another variable, then called
+	"closure-via-method",  // the same closure passed to a method that calls it
+	"closure-inline-call", // (-> x = O).() inside the narrowed region
+	"closure-inner-call",  // f := -> x = O ; f.() both inside the narrowed region
+	"cond-reassign",       // if c then x = O end
+	"loop-reassign",       // a loop whose body assigns, probe after the loop
+	"loop-back-edge",      // the probe at the start of a loop body, the assignment at its end
+	"catch-reassign",      // assignment in a do body that throws, probe after the catch
+	"finally-reassign",    // assignment in finally
 }
 
 var positions = []string{"direct", "after-call", "closure", "closure-made-before-invalidation"}
+
 // probe: typed probe of the type the form should narrow to; other: typed probe of the complementary type (a sound
 // checker rejects it, a checker that narrows with the wrong polarity accepts it); op: type-specialised operation
 var kinds = []string{"probe", "other", "op"}
@@ -308,7 +311,9 @@ func gen(d decl, scope string, nf nform, inv, pos, kind string) prog {
 	case "loop-reassign":
 		body = seq(cat("i := 0", block("while i < 1", []string{assign, "i += 1"})))
 	case "loop-back-edge":
-		loop := func(inner []string) []string { return cat("i := 0", block("while i < 2", cat(inner, assign, "i += 1"))) }
+		loop := func(inner []string) []string {
+			return cat("i := 0", block("while i < 2", cat(inner, assign, "i += 1")))
+		}
 		if early {
 			body = cat(gdef, loop(probe))
 		} else {
@@ -413,22 +418,24 @@ func checkCase(c *engine.Ctx, r *engine.R, d decl, scope string, nf nform) {
 	violated := map[string]bool{} // inv/pos of probe-kind variants that showed a violation
 	// phase 1: typed probes; phase 2: type-specialised operations, only where the probe found the value inside
 	// its static type (an operation applied to a value of the wrong representation can take the host process down)
-	for _, kind := range kinds {
+	for _, phase := range [][]string{{"probe", "other"}, {"op"}} {
 		var vs []variant
 		var units []unit
 		for _, inv := range invals {
 			for _, pos := range positions {
-				p := gen(d, scope, nf, inv, pos, kind)
-				if p.skip != "" {
-					r.Count("not_applicable", 1)
-					continue
+				for _, kind := range phase {
+					p := gen(d, scope, nf, inv, pos, kind)
+					if p.skip != "" {
+						r.Count("not_applicable", 1)
+						continue
+					}
+					if kind == "op" && violated[inv+"/"+pos] {
+						r.Count("operation_not_run_probe_already_violated", 1)
+						continue
+					}
+					units = append(units, toUnit(d, scope, p.main, len(units)))
+					vs = append(vs, variant{inv, pos, kind, p})
 				}
-				if kind == "op" && violated[inv+"/"+pos] {
-					r.Count("operation_not_run_probe_already_violated", 1)
-					continue
-				}
-				units = append(units, toUnit(d, scope, p.main, len(units)))
-				vs = append(vs, variant{inv, pos, kind, p})
 			}
 		}
 		source := func(i int) func() string {
@@ -439,7 +446,7 @@ func checkCase(c *engine.Ctx, r *engine.R, d decl, scope string, nf nform) {
 		r.Count("programs_compiled", st.compiles)
 		r.Count("programs_executed", st.execs)
 		for i, ur := range results {
-			if judge(r, d, scope, nf, vs[i], ur, source(i)) && kind == "probe" {
+			if judge(r, d, scope, nf, vs[i], ur, source(i)) && vs[i].kind == "probe" {
 				violated[vs[i].inv+"/"+vs[i].pos] = true
 			}
 		}
@@ -463,7 +470,7 @@ func checkCase(c *engine.Ctx, r *engine.R, d decl, scope string, nf nform) {
 					r.Count("rejected_only_in_batch", 1)
 					r.Count("rejected", -1)
 					r.Eval(-1)
-					if judge(r, d, scope, nf, vs[i], ur, source(i)) {
+					if judge(r, d, scope, nf, vs[i], ur, source(i)) && vs[i].kind == "probe" {
 						violated[vs[i].inv+"/"+vs[i].pos] = true
 					}
 				}
@@ -559,6 +566,9 @@ func run(c *engine.Ctx) {
 		for _, scope := range scopes {
 			for _, nf := range nforms() {
 				d, scope, nf := d, scope, nf
+				if !c.Thorough && scope == "top" && terminal(nf) {
+					continue // one program per variant: thorough tier only (the form is explored in both method scopes)
+				}
 				c.Case(fmt.Sprintf("%s/%s/%s", d.name, scope, nf.name), func(r *engine.R) { checkCase(c, r, d, scope, nf) })
 			}
 		}
@@ -576,6 +586,9 @@ func main() {
 		Assume:      []string{"`v.class.name` reports the runtime class", "method bodies compiled one at a time (MethodCheckConcurrencyLimit=1)", "the std-header return-type clause is covered by C28"},
 		Setup:       func(c *engine.Ctx) { elkrun.Init() },
 		Run:         run,
-		CaseTimeout: 120 * time.Second,
+		CaseTimeout: 300 * time.Second,
+		// the budget is CPU-bound (≈ 10 CPU-minutes quick); on a heavily shared machine finishing matters more than the wall clock
+		QuickDeadline:    25 * time.Minute,
+		ThoroughDeadline: 90 * time.Minute,
 	})
 }
